@@ -99,16 +99,86 @@ def run(res, tier, seed, shard, nshards):
             histories.append(((d, cs), (d, (("a", "new"),))))
             histories.append(((d, cs), ("y.t", (("a", "9"),))))
 
+    # host and domain names that end in a digit (dc1, rack12.lan9): names all the same - the label-boundary rule applies to them
+    digit_probes = ["dc1", "api.dc1", "a.b.dc1", "xdc1", "dc11", "1", "c1", "n1.rack12.lan9", "rack12.lan9", "rack2.lan9", "lan9", "10.0.0.1"]
+    digit_hist = []
+    for d in ("dc1", ".dc1", "DC1", "rack12.lan9"):
+        for cs in cookie_sets(("a", "b"))[:3]:
+            digit_hist.append(((d, cs),))
+            digit_hist.append((("x.t", (("a", "9"),)), (d, cs)))
+
     def scen():
         for i, hst in enumerate(histories):
             if i % nshards != shard:
                 continue
             history_case(res, W, rng, hst)
+        for i, hst in enumerate(digit_hist):
+            if i % nshards == shard:
+                history_case(res, W, rng, hst, probes=digit_probes)
+                res.count("histories_with_names_ending_in_a_digit")
 
     H.in_sim(scen, watchdog=3000)
+    if shard == 1 % nshards:
+        concurrent_responses(res, W, tier, seed)
 
 
-def history_case(res, W, rng, hst):
+def concurrent_responses(res, W, tier, seed):
+    """Two handshakes that finish at the same time (two threads), both responses setting cookies for a domain already in the jar: both
+    cookies are there afterwards - every repository line of either thread as the preemption point, and random line-level schedules."""
+    from ..sim import sched, shim
+    from . import c12
+    sched.install_line_monitor(shim.PREFIX)
+
+    def factory():
+        def scen():
+            S = sched.CURRENT
+            H.reset_process_state()
+            setc = {"first.test": "Set-Cookie: z=0; Domain=x.t", "t0.test": "Set-Cookie: a=1; Domain=x.t", "t1.test": "Set-Cookie: b=2; Domain=X.T"}
+            requests = []
+
+            def on_conn(conn):
+                def resp(req):
+                    requests.append(req)
+                    host = [ln.split(b":", 1)[1].strip().decode() for ln in req.split(b"\r\n") if ln.lower().startswith(b"host:")][0]
+                    extra = [setc[host]] if host in setc else []
+                    return H.response_101(H.request_key(req) or "", extra)
+                H.HandshakePeer(conn, response=resp)
+            H.make_net(on_conn)
+            W.create_connection("ws://first.test/", timeout=2).shutdown()
+            errors = []
+
+            def worker(t):
+                try:
+                    W.create_connection(f"ws://t{t}.test/", timeout=2).shutdown()
+                except BaseException as e:  # noqa
+                    if isinstance(e, sched.SimAbort):
+                        raise
+                    errors.append((t, e))
+            actors = [S.spawn(worker, t, name=f"T{t}") for t in (0, 1)]
+            S.arm(line_points=True)
+            S.block(lambda: all(a.state == sched.DONE for a in actors), None, why="join")
+            S.disarm()
+            n0 = len(requests)
+            W.create_connection("ws://s.x.t/", timeout=2).shutdown()
+            _, _, _, headers, _ = RH.parse_request(requests[n0])
+            return {"cookie": RH.get_all(headers, "Cookie"), "errors": errors, "actors": actors}
+        return scen
+
+    def judge_(obs, S):
+        issues = []
+        ck = obs["cookie"]
+        if obs["errors"]:
+            issues.append(("connect-failed", f"two concurrent handshakes: {obs['errors'][0][1]!r}", {"exc_type": type(obs["errors"][0][1]).__name__}))
+        elif ck != ["a=1; b=2; z=0"]:
+            issues.append(("cookie-set", f"after two concurrent handshakes that set a=1 and b=2 for a domain already holding z=0, the next request to s.x.t carried Cookie {ck!r}, "
+                           f"expected ['a=1; b=2; z=0']", {"diff": "lost", "upper": True, "probe_class": "other"}))
+        return issues, {"gen": "concurrent-responses", "decisions": list(S.decisions)[:200]}, tuple(ck), S.switches > 0
+    tag = ("concurrent-responses",)
+    c12.explore(res, factory, judge_, tag, "sweep", 200 if tier == "quick" else 5000, seed, "concurrent_response_schedules")
+    c12.explore(res, factory, judge_, tag, "random", 25 if tier == "quick" else 1500, seed, "concurrent_response_schedules")
+
+
+def history_case(res, W, rng, hst, probes=None):
     H.reset_process_state()
     ref = RefJar()
     plan = {"next_set_cookie": None, "redirect": False}
@@ -169,7 +239,7 @@ def history_case(res, W, rng, hst):
             return
         ref.add(domain, cs)
         stored = stored or domain is not None
-    for probe in PROBES:
+    for probe in (probes or PROBES):
         caller = rng.choice([None, "me=1", "a=1", "=1", "b=2", "a=1; b=2"])
         n0 = len(requests)
         # the Host header override names a virtual host; cookies follow the host actually connected to
